@@ -26,7 +26,7 @@ RULE = ("behaviours = every sequence of list / note / heading+TOC operations (ar
 
 TRACE = ("Lists_Trace.tla", "Lists_Trace.cfg")
 CHUNK = 40000    # events per judge run
-JUDGES = 4       # trace judges side by side (each a single-worker TLC)
+JUDGES = 3       # trace judges side by side (each a single-worker TLC)
 
 ALLTYPES = {"bullet", "number", "decimal", "lowerLetter", "upperLetter", "lowerRoman", "upperRoman"}
 ALLSYMS = {"dot", "circle", "square", "dash", "arrow"}
@@ -113,22 +113,31 @@ def families(q):
         fam.append(("toc", dict(OpNames=TOC_OPS - {"SetTOCStyle", "BuildTOCSDT"} | {"Reopen"}, Depth=3, HLvls={1, 4},
                                 HTexts={"Alpha", ""}, Styles={"Heading2"}, MLs={1, 3}, MaxK=1)))
     else:
+        # every PAIR of list calls over every type / symbol / level class / start (cache-key collisions of any two requests)
         fam.append(("lists", dict(OpNames=LIST_OPS | {"Reopen"}, Depth=2, Types=ALLTYPES, Syms=ALLSYMS | {"custom"},
-                                  NumSyms={"empty", "dot"}, LvlCodes=lvls_t, Starts={0, 1, 5}, MLStarts={1, 5}, MLLen=2, MaxK=3)))
+                                  LvlCodes=lvls_t, Starts={0, 1, 5}, MLStarts={1, 5}, MLLen=2, MaxK=3)))
+        fam.append(("listsym", dict(OpNames={"AddListItem", "AddBulletList", "Reopen"}, Depth=3, Types={"bullet", "decimal"},
+                                    Syms={"dot", "arrow"}, NumSyms={"empty", "dot"}, LvlCodes={1, 2}, Starts={1, 5})))
         fam.append(("lists3", dict(OpNames=LIST_OPS - {"CreateMultiLevelList"} | {"Reopen"}, Depth=3,
-                                   Types={"bullet", "decimal", "upperLetter"}, Syms={"dot", "arrow"}, LvlCodes={0, 1, 9, 10},
+                                   Types={"bullet", "decimal", "upperLetter"}, Syms={"dot", "arrow"}, LvlCodes={1, 10},
                                    Starts={1, 5}, MaxK=2)))
+        fam.append(("lists4", dict(OpNames={"AddListItem", "AddListItemNil", "RemoveListItem", "Reopen"}, Depth=4,
+                                   Types={"bullet", "lowerRoman"}, LvlCodes={1, 10}, Starts={1, 5}, MaxK=2)))
         fam.append(("lists2d", dict(ND=2, OpNames={"AddListItem", "AddNumberedList", "RestartNumbering", "Reopen"}, Depth=3,
                                     Types={"bullet", "decimal"}, LvlCodes={1, 10}, Starts={1, 5})))
-        fam.append(("notes", dict(OpNames=NOTE_OPS | {"Reopen"}, Depth=4, NTexts={"note a", ""}, Runs={"para", "detached"},
-                                  Refs={"gone", "bogus", "sep"}, CfgStarts={0, 5}, MaxK=2)))
+        fam.append(("notes", dict(OpNames=NOTE_OPS | {"Reopen"}, Depth=3, NTexts={"note a", "", "<&>"},
+                                  Runs={"para", "detached", "foreign"}, Refs={"gone", "bogus", "sep", "empty"}, CfgFmts={"lowerRoman", "decimal"},
+                                  CfgStarts={0, 5}, MaxK=2)))
+        fam.append(("notes4", dict(OpNames=NOTE_OPS | {"Reopen"}, Depth=4, Refs={"gone"}, CfgStarts={5}, MaxK=3)))
         fam.append(("notes2", dict(ND=2, OpNames=NOTE_OPS - {"SetFootnoteConfig"} | {"Reopen"}, Depth=3,
-                                   NTexts={"note a", "<&>"}, Runs={"para", "foreign"}, Refs={"other", "gone", "empty"}, MaxK=2)))
-        fam.append(("toc", dict(OpNames=TOC_OPS | {"Reopen"}, Depth=3, Apis={"para", "parabm", "tocbm"}, HLvls={1, 3, 4, 9},
-                                HTexts={"Alpha", "", "A <&> B"}, Styles={"Heading2", "Title"}, MLs={0, 1, 3, 9, 12},
-                                TSLvls={0, 1, 9, 10}, MaxK=2)))
+                                   Runs={"para", "foreign"}, Refs={"other", "gone"}, MaxK=2)))
+        fam.append(("toc2", dict(OpNames=TOC_OPS | {"Reopen"}, Depth=2, Apis={"para", "parabm", "tocbm"}, HLvls={1, 2, 3, 4, 9},
+                                 HTexts={"Alpha", "", "A <&> B"}, Styles={"Heading2", "Heading9", "Title"}, MLs={0, 1, 2, 3, 4, 9, 12},
+                                 TSLvls={0, 1, 9, 10}, MaxK=2)))
+        fam.append(("toc", dict(OpNames=TOC_OPS | {"Reopen"}, Depth=3, Apis={"para", "parabm"}, HLvls={1, 3, 4},
+                                HTexts={"Alpha", ""}, Styles={"Heading2", "Title"}, MLs={0, 1, 3, 9}, TSLvls={0, 1}, MaxK=2)))
         fam.append(("toc4", dict(OpNames={"AddHeading", "RemoveHeading", "GenerateTOC", "AutoGenerateTOC", "UpdateTOC", "Reopen"},
-                                 Depth=4, HLvls={1, 4}, HTexts={"Alpha", ""}, MLs={1, 3}, MaxK=1)))
+                                 Depth=4, HLvls={1, 4}, HTexts={"Alpha", ""}, MLs={3}, MaxK=1)))
     return fam
 
 
@@ -164,27 +173,41 @@ def vlib_machinery(msg):
     return vlib.Machinery(msg)
 
 
-SIM_FULL = dict(Types=ALLTYPES, Syms=ALLSYMS | {"custom"}, NumSyms={"empty", "dot"},
-                LvlCodes={0, 1, 2, 5, 9, 10, 13}, Starts={0, 1, 5}, MLTypes={"bullet", "decimal", "upperRoman"}, MLStarts={1, 5},
-                MLLen=2, NTexts={"note a", "", "<&>"}, Runs={"para", "detached", "foreign"},
-                Refs={"gone", "other", "bogus", "sep", "empty"}, CfgFmts={"lowerRoman", "decimal"}, CfgStarts={0, 5},
-                Apis={"para", "parabm", "tocbm"}, HLvls={1, 2, 3, 4, 9}, HTexts={"Alpha", "Beta", "", "A <&> B"},
-                Styles={"Heading2", "Heading9", "Title", "Normal"}, MLs={0, 1, 2, 3, 5, 9, 12}, TSLvls={0, 1, 9, 10}, MaxK=3)
-SIM_QUICK = dict(Types={"bullet", "decimal", "upperLetter"}, Syms={"dot", "square"}, LvlCodes={0, 1, 4, 10}, Starts={1, 5},
+SIM_FULL = dict(Types={"bullet", "decimal", "upperLetter", "lowerRoman"}, Syms={"dot", "square", "custom"}, NumSyms={"empty"},
+                LvlCodes={0, 1, 5, 9, 10}, Starts={0, 1, 5}, MLTypes={"bullet", "upperRoman"}, MLStarts={1, 5},
+                MLLen=2, NTexts={"note a", "<&>"}, Runs={"para", "detached", "foreign"},
+                Refs={"gone", "other", "bogus", "sep", "empty"}, CfgFmts={"lowerRoman"}, CfgStarts={0, 5},
+                Apis={"para", "parabm", "tocbm"}, HLvls={1, 2, 3, 4, 9}, HTexts={"Alpha", "", "A <&> B"},
+                Styles={"Heading2", "Title"}, MLs={0, 1, 2, 3, 9}, TSLvls={0, 1, 10}, MaxK=3)
+SIM_QUICK = dict(Types={"bullet", "decimal", "upperLetter"}, Syms={"dot", "square"}, LvlCodes={1, 4, 10}, Starts={1, 5},
                  MLStarts={1, 5}, MLLen=1, NTexts={"note a", "<&>"}, Runs={"para", "foreign"}, Refs={"gone", "other", "bogus"},
-                 CfgStarts={0, 5}, Apis={"para", "parabm", "tocbm"}, HLvls={1, 2, 4}, HTexts={"Alpha", "", "A <&> B"},
+                 CfgStarts={5}, Apis={"para", "parabm", "tocbm"}, HLvls={1, 2, 4}, HTexts={"Alpha", ""},
                  Styles={"Heading2", "Title"}, MLs={1, 3, 9}, TSLvls={0, 1}, MaxK=2)
+SIM_PER_TRACE = 4    # TLC prints every successor of the last state of a random walk: keep a few of these siblings per walk
 
 
 def plan(q):
     """(tag, mode, constants, generation arguments) of every family of the tier."""
     jobs = [(tag, "bfs", kw, {}) for tag, kw in families(q)]
-    d = 10 if q else 24
+    d = 10 if q else 20
     pools = SIM_QUICK if q else SIM_FULL
     for tag, nd, off in (("sim1", 1, 0), ("sim2", 2, 1)):
         jobs.append((tag, "sim", dict(pools, ND=nd, OpNames=ALL_OPS, Depth=d),
-                     dict(num=12 if q else 120, depth=d + 1, seed_off=off, limit=250 if q else 3000)))
+                     dict(num=40 if q else 120, depth=d + 1, seed_off=off)))
     return jobs, d, pools
+
+
+def thin(ctx, cases):
+    """Random walks: of the behaviours that share everything but the last operation keep SIM_PER_TRACE (seeded choice)."""
+    import json, random
+    rnd = random.Random(ctx.seed)
+    groups = {}
+    for c in cases:
+        groups.setdefault(json.dumps(c["steps"][:-1], sort_keys=True), []).append(c)
+    out = []
+    for g in groups.values():
+        out.extend(g if len(g) <= SIM_PER_TRACE else rnd.sample(g, SIM_PER_TRACE))
+    return out
 
 
 def family(ctx, k, job):
@@ -194,6 +217,8 @@ def family(ctx, k, job):
     c.states = c.transitions = c.traces = c.events = 0
     c.witnesses = []
     cases = c.tlc_gen("Lists_MC.tla", gencfg(c, "gen_%s.cfg" % tag, **kw), tag, mode=mode, **genargs)
+    if mode == "sim":
+        cases = thin(c, cases)
     judge(c, cases, tag)
     return c, cases
 
